@@ -143,6 +143,37 @@ func checkC07(c *Check) {
 						}
 					}
 				}
+			case *ssa.MapUpdate:
+				// R3 process-local state: a map held by a keeper (or a package variable) that is filled while handling
+				// consensus input lives outside the branched, revertible store
+				var v ssa.Value = x.Map
+				for d := 0; d < 6; d++ {
+					switch y := v.(type) {
+					case *ssa.UnOp:
+						v = y.X
+						continue
+					case *ssa.FieldAddr:
+						v = y.X
+						continue
+					case *ssa.Field:
+						v = y.X
+						continue
+					}
+					break
+				}
+				if al, isA := v.(*ssa.Alloc); isA {
+					if pp := paramOfAlloc(al); pp != nil {
+						v = pp // a receiver / parameter spilled to a local
+					}
+				}
+				switch root := v.(type) {
+				case *ssa.Global:
+					c.Ob("R3", "write to package-level map "+root.Name()+" in "+fnName(fn), x.Pos(), false, "package-level state mutated from consensus code: "+where)
+				case *ssa.Parameter:
+					if fn.Signature.Recv() != nil && len(fn.Params) > 0 && root == fn.Params[0] && strings.Contains(fnPkgPath(fn), "/keeper") {
+						c.Ob("R3", "write to a map held by the keeper in "+fnName(fn), x.Pos(), false, "the keeper memorises decoded state in process memory: a failed transaction is rolled back in the store but not there, CheckTx and DeliverTx share it, a restarted node starts without it: "+where)
+					}
+				}
 			case *ssa.Store:
 				// R3 process-local state
 				root, viaKeeper := storeRoot(x.Addr, fn)
